@@ -133,7 +133,7 @@ pub fn run_example_arm(arm: &str, seed: u64, run: u64, agg: &mut Agg, explicit: 
     let path = format!("{dir}/{}", inst.file_name);
     { let mut f = std::fs::File::create(&path).ok()?; f.write_all(inst.content.as_bytes()).ok()?; }
     let argv = (spec.cli)(&path, width, threads);
-    let res = run_example(name, &argv, (spec.sched_threads)(threads), sched_seed, strategy.as_deref(), 120);
+    let res = run_example(name, &argv, (spec.sched_threads)(threads), sched_seed, strategy.as_deref(), 60);
     let _ = std::fs::remove_file(&path);
     let ctx = format!("width={:?} threads={} sched_seed={} instance: {}", width, threads, sched_seed, inst.describe);
     let viol = judge(name, &inst, &res, &ctx);
